@@ -57,7 +57,7 @@ def run(tier, seed):
     fut_x = pool.submit(stream, c02_enc, "enc")
     fut_t = pool.submit(stream, c02_top4g, "top4g")
     rc, out = sh([binp, "-seed", str(seed), "-n", str(n), "-big", str(big)], timeout=2400)
-    cases = [json.loads(l) for l in out.split("\n") if l.startswith("{")]
+    cases = jlines(out)
     na, da, dist_a, samp_a = fut_a.result()
     ne, de, dist_e, samp_e = fut_e.result()
     ng, dg, dist_g, samp_g = fut_g.result()
